@@ -65,6 +65,11 @@ func c19(c *Ctx) {
 		}
 		c19RunHammer(c, os.Args[0], "c19-mineinsert", "mineinsert", mi, 240*time.Second)
 		c19RunHammer(c, os.Args[0], "c19-restart", "restart", 1, 240*time.Second)
+		ls := 3000
+		if c.Tier == "thorough" {
+			ls = 30000
+		}
+		c19RunHammer(c, os.Args[0], "c19-lastsig", "lastsig", ls, 240*time.Second)
 	}
 	if c.Tier == "thorough" && os.Getenv("VERIF_C19_NORACE") == "" {
 		c19Race(c)
@@ -202,6 +207,17 @@ func c19Facts(c *Ctx) {
 		c.Count("dyncall:function-value-calls-not-followed")
 	}
 	c.Op(fmt.Sprintf("dyncall-end %d", len(dyn)), "ok")
+	// check-then-act splits: guarded read and guarded write of one variable in two different sections of one function
+	var splits []c19Split
+	if c19LastScan != nil {
+		splits = c19LastScan.rmwSplits()
+	}
+	for _, sp := range splits {
+		c.Op("rmw-split "+sp.Var+" "+sp.Fn, "ok")
+		c.Fail("c19/check-then-act-split/"+sp.Var+"/"+sp.Fn, "in "+sp.Fn+" the variable "+sp.Var+" is read in one critical section of its lock and written in another one: every access is guarded, but the lock is released between the check and the update (fact `rmw-split "+sp.Var+" "+sp.Fn+"`)", nil)
+	}
+	c.Op(fmt.Sprintf("rmw-split-end %d", len(splits)), "ok")
+	c.Count(fmt.Sprintf("fact:rmw-split:%d", len(splits)))
 	for _, k := range order {
 		rs := bad[k]
 		v := k[:strings.Index(k, "/")]
@@ -360,6 +376,18 @@ def dynCalls : List (String × Nat × Nat) := [` + func() string {
 		var q []string
 		for _, d := range c19DynCalls() {
 			q = append(q, fmt.Sprintf("(%q, %d, %d)", d.fn, d.calls, d.gos))
+		}
+		return strings.Join(q, ", ")
+	}() + `]
+
+/-- check-then-act splits (a function that reads a variable in one section of its lock and writes it in another):
+    expected none -/
+def rmwSplits : List (String × String) := [` + func() string {
+		var q []string
+		if c19LastScan != nil {
+			for _, sp := range c19LastScan.rmwSplits() {
+				q = append(q, fmt.Sprintf("(%q, %q)", sp.Var, sp.Fn))
+			}
 		}
 		return strings.Join(q, ", ")
 	}() + `]
